@@ -405,7 +405,7 @@ def h6_pipeline(maxlen=2, timeout=200, part=None, **kw):
         return {"attrs": info["attrs"], "note": "structure built from choices; replayed by re-running the same harness concretely"}
     return core.run_symx("H6_pipeline", fn, [pt.PDFStream.decode, pt.PDFStream.get_filters, pt.PDFStream.get_data],
                          {"chain_length": "1..%d" % maxlen, "names": "full/abbreviated", "parameters": "none/null/TIFF/PNG per filter", "form": "single, array, indirect array, indirect elements",
-                          "keys": "Filter/DecodeParms and F/DP"}, timeout, concretize=None, part=part)
+                          "keys": "Filter/DecodeParms and F/DP"}, timeout, concretize=conc, part=part)
 
 
 # ------------------------------------------------------------------------------- H7 payload delimitation
@@ -551,7 +551,7 @@ def replay(harness, inp):
             return "PDFParser(%r): object after the stream is %r, expected the endstream keyword at %r" % (inp["data"], nxt, inp.get("endpos"))
         return None
     if harness == "H6_pipeline":
-        return "H6 has no concretisation"      # never reached: concretize=None turns counterexamples into inconclusive
+        return core.replay_by_choices(h6_pipeline, {"maxlen": 3}, inp["_choices"])
     raise KeyError(harness)
 
 
